@@ -16,4 +16,9 @@ OwnC == ("o1" :> "main") @@ ("s1" :> "main") @@ ("j1" :> "none")
 \* program D: two threads (main, t1), t1 reads
 TgtD == (w1 :> "main") @@ (w2 :> "t1")
 OwnD == ("o1" :> "t1")
+\* quick programs
+TgtQ1 == (w1 :> "t1")
+OwnQ1 == ("o1" :> "main")
+TgtQ2 == (w1 :> "main")
+OwnQ2 == ("s1" :> "t1") @@ ("j1" :> "main")
 =============================================================================
